@@ -199,8 +199,47 @@ def t_real_case(t, lang, n_max=5, nbest_max=1, numerics=('dyadic', 'dyadic', 'lo
     case = {'grammar': spec, 'tags': [canon(c) for c in tags], 'roots': [canon(c) for c in roots],
             'sentences': [sent], 'config': cfg, 'numeric': numeric,
             'head_mode': 'left' if lang == 'en' else 'right', 'gold_parse_exists': not random_leaves}
+    t_spread_tags(t, case, tags, idx)
     t_warmup(t, case)
     return case
+
+
+def t_spread_tags(t, case, tags, idx):
+    """in a third of the real-grammar cases the tag list is the sentence's tags scattered among 33-160 other
+    categories of the inventory with far lower scores (the parser is normally handed the whole inventory, so
+    category ids are spread over hundreds of values and rule-made categories get ids beyond them); positions are a
+    pure function of the tail of the tape"""
+    if t.tail(5) % 3 != 0:
+        return
+    import random
+    rnd = random.Random(bytes(t.tail(k) for k in range(5, 13)))
+    have = set(tags)
+    pool = [c for c in idx.targets if c not in have]
+    P = min(len(pool), 33 + t.tail(6) % 128)
+    pads = rnd.sample(pool, P)
+    total = P + len(tags)
+    pos = sorted(rnd.sample(range(total), len(tags)))
+    order = [None] * total
+    for p, c in zip(pos, range(len(tags))):
+        order[p] = c
+    it = iter(pads)
+    new_tags, src = [], []
+    for slot in order:
+        if slot is None:
+            new_tags.append(next(it)); src.append(None)
+        else:
+            new_tags.append(tags[slot]); src.append(slot)
+    dyadic = case['numeric'].startswith('dyadic')
+    for sent in case['sentences']:
+        rows = []
+        for row in sent['tag']:
+            lo = min(v for v in row if v > -1e30) if any(v > -1e30 for v in row) else 0.0
+            rows.append([row[sc] if sc is not None else
+                         ((math.floor(lo) - 16 - (j % 4) / 8) if dyadic else f32(lo - 20 - (j % 4)))
+                         for j, sc in enumerate(src)])
+        sent['tag'] = rows
+    case['tags'] = [canon(c) for c in new_tags]
+    case['spread'] = total
 
 
 def resolve_grammar_spec(spec):
